@@ -164,6 +164,11 @@ func (r *Rec) Known(id string) bool {
 	if _, ok := kfOpen[id]; !ok {
 		return false
 	}
+	for _, k := range r.known {
+		if k == id {
+			return true // counted once per case
+		}
+	}
 	r.known = append(r.known, id)
 	return true
 }
